@@ -343,6 +343,14 @@ pub open spec fn is_fp_trace<F: Fn(Rc<BDD>) -> Rc<BDD>>(t: F, a: Rc<BDD>, tr: Se
     && forall|i: int| 0 <= i < tr.len() - 1 ==> t.ensures((#[trigger] tr[i],), tr[i + 1]) && *tr[i + 1] != *tr[i]
 }
 
+pub open spec fn use_inv(inv: spec_fn(Rc<BDD>, Rc<BDD>) -> bool) -> bool { true }
+
+/// like is_fp_trace, with the closure's postcondition abstracted to any relation inv it implies
+pub open spec fn inv_trace(inv: spec_fn(Rc<BDD>, Rc<BDD>) -> bool, a: Rc<BDD>, tr: Seq<Rc<BDD>>, r: Rc<BDD>) -> bool {
+    tr.len() > 0 && tr[0] == a && tr[tr.len() - 1] == r
+    && forall|k: int| 0 <= k < tr.len() - 1 ==> inv(#[trigger] tr[k], tr[k + 1]) && *tr[k + 1] != *tr[k]
+}
+
 // ================================================================ formula language (C01, C05, C06, C09)
 
 pub type Rho = Map<Sym, BDD>;
@@ -493,10 +501,20 @@ pub open spec fn sem(f: SymbolicBDD, a: Asg, rho: Rho) -> bool
         SymbolicBDD::CountableVariable(op, l, r) => cmp_op(op, scount(l@, 0, a, rho), scount(r@, 0, a, rho)),
         SymbolicBDD::Ite(c, t, e) => if sem(*c, a, rho) { sem(*t, a, rho) } else { sem(*e, a, rho) },
         SymbolicBDD::BinaryOp(op, l, r) => bin_op(op, sem(*l, a, rho), sem(*r, a, rho)),
-        SymbolicBDD::FixedPoint(x, i, t) =>
-            if exists|y: BDD| fp_result(x, i, *t, rho, y) { eval(choose|y: BDD| fp_result(x, i, *t, rho, y), a) } else { false },
+        SymbolicBDD::FixedPoint(x, i, t) => fp_sem(x, i, *t, rho, a),
     }
 }
+
+/// value of `lfp/gfp X # T`: that of the first stable iterate (which is unique); false if the iteration does not
+/// converge (evaluation diverges then)
+pub open spec fn fp_sem(x: Sym, i: bool, t: SymbolicBDD, rho: Rho, a: Asg) -> bool
+    decreases t, 4nat, 0nat
+{
+    exists|y: BDD| fp_result(x, i, t, rho, y) && #[trigger] eval(y, a)
+}
+
+/// trigger helper (quantifiers inside the mutually recursive group must not be triggered on members of the group)
+pub open spec fn tr_tag(tr: Seq<BDD>) -> bool { true }
 
 /// exists / forall over the list vs, outermost variable first
 pub open spec fn semq(q: QuantifierType, vs: Seq<Sym>, b: SymbolicBDD, a: Asg, rho: Rho) -> bool
@@ -535,7 +553,7 @@ pub open spec fn fp_trace(x: Sym, i: bool, t: SymbolicBDD, rho: Rho, tr: Seq<BDD
 pub open spec fn fp_result(x: Sym, i: bool, t: SymbolicBDD, rho: Rho, y: BDD) -> bool
     decreases t, 3nat, 0nat
 {
-    exists|tr: Seq<BDD>| #[trigger] fp_trace(x, i, t, rho, tr) && tr[tr.len() - 1] == y && fp_step(x, t, rho, y, y)
+    exists|tr: Seq<BDD>| #[trigger] tr_tag(tr) && fp_trace(x, i, t, rho, tr) && tr[tr.len() - 1] == y && fp_step(x, t, rho, y, y)
 }
 
 pub proof fn lemma_list_size_elem(bs: Seq<SymbolicBDD>, k: nat, i: int)
@@ -599,5 +617,324 @@ pub proof fn lemma_semq_exq(vs: Seq<Sym>, b: SymbolicBDD, rb: BDD, a: Asg, rho: 
     if vs.len() > 0 {
         lemma_semq_exq(vs.subrange(1, vs.len() as int), b, rb, upd(a, vs[0], true), rho);
         lemma_semq_exq(vs.subrange(1, vs.len() as int), b, rb, upd(a, vs[0], false), rho);
+    }
+}
+
+// ---------------------------------------------------------------- substitution and fixed points (C06)
+
+pub proof fn lemma_list_size_pointwise(bs: Seq<SymbolicBDD>, cs: Seq<SymbolicBDD>, k: nat)
+    requires bs.len() == cs.len(), k <= bs.len(), forall|i: int| 0 <= i < bs.len() ==> ast_size(#[trigger] bs[i]) == ast_size(cs[i])
+    ensures list_size(bs, k) == list_size(cs, k)
+    decreases k
+{
+    if k > 0 { lemma_list_size_pointwise(bs, cs, (k - 1) as nat); }
+}
+
+/// substituting a leaf keeps the size (termination measure of the FixedPoint arm)
+pub proof fn lemma_subst_size(f: SymbolicBDD, x: Sym, rep: SymbolicBDD, g: SymbolicBDD)
+    requires is_subst(f, x, rep, g), ast_size(rep) == 1, ref_free(f)
+    ensures ast_size(g) == ast_size(f)
+    decreases f
+{
+    match f {
+        SymbolicBDD::Not(b) => { lemma_subst_size(*b, x, rep, *g->Not_0); }
+        SymbolicBDD::Quantifier(q, vs, b) => { if !sym_in(vs@, x) { lemma_subst_size(*b, x, rep, *g->Quantifier_2); } }
+        SymbolicBDD::FixedPoint(v, i, t) => { if v != x { lemma_subst_size(*t, x, rep, *g->FixedPoint_2); } }
+        SymbolicBDD::Ite(a, b, c) => {
+            lemma_subst_size(*a, x, rep, *g->Ite_0); lemma_subst_size(*b, x, rep, *g->Ite_1); lemma_subst_size(*c, x, rep, *g->Ite_2);
+        }
+        SymbolicBDD::BinaryOp(op, l, r) => { lemma_subst_size(*l, x, rep, *g->BinaryOp_1); lemma_subst_size(*r, x, rep, *g->BinaryOp_2); }
+        SymbolicBDD::CountableConst(op, bs, n) => {
+            let cs = g->CountableConst_1;
+            assert forall|i: int| 0 <= i < bs@.len() implies ast_size(#[trigger] bs@[i]) == ast_size(cs@[i]) by {
+                lemma_subst_size(bs@[i], x, rep, cs@[i]);
+            }
+            lemma_list_size_pointwise(bs@, cs@, bs@.len());
+        }
+        SymbolicBDD::CountableVariable(op, l, r) => {
+            let l2 = g->CountableVariable_1; let r2 = g->CountableVariable_2;
+            assert forall|i: int| 0 <= i < l@.len() implies ast_size(#[trigger] l@[i]) == ast_size(l2@[i]) by {
+                lemma_subst_size(l@[i], x, rep, l2@[i]);
+            }
+            assert forall|i: int| 0 <= i < r@.len() implies ast_size(#[trigger] r@[i]) == ast_size(r2@[i]) by {
+                lemma_subst_size(r@[i], x, rep, r2@[i]);
+            }
+            lemma_list_size_pointwise(l@, l2@, l@.len());
+            lemma_list_size_pointwise(r@, r2@, r@.len());
+        }
+        _ => {}
+    }
+}
+
+/// substituting an ROBDD leaf keeps the formula reference-free with well-formed embedded diagrams
+pub proof fn lemma_subst_ok(f: SymbolicBDD, x: Sym, rep: SymbolicBDD, g: SymbolicBDD)
+    requires is_subst(f, x, rep, g), ref_free(f), subtrees_ok(f, false), ref_free(rep), subtrees_ok(rep, false)
+    ensures ref_free(g), subtrees_ok(g, false)
+    decreases f
+{
+    match f {
+        SymbolicBDD::Not(b) => { lemma_subst_ok(*b, x, rep, *g->Not_0); }
+        SymbolicBDD::Quantifier(q, vs, b) => { if !sym_in(vs@, x) { lemma_subst_ok(*b, x, rep, *g->Quantifier_2); } }
+        SymbolicBDD::FixedPoint(v, i, t) => { if v != x { lemma_subst_ok(*t, x, rep, *g->FixedPoint_2); } }
+        SymbolicBDD::Ite(a, b, c) => {
+            lemma_subst_ok(*a, x, rep, *g->Ite_0); lemma_subst_ok(*b, x, rep, *g->Ite_1); lemma_subst_ok(*c, x, rep, *g->Ite_2);
+        }
+        SymbolicBDD::BinaryOp(op, l, r) => { lemma_subst_ok(*l, x, rep, *g->BinaryOp_1); lemma_subst_ok(*r, x, rep, *g->BinaryOp_2); }
+        SymbolicBDD::CountableConst(op, bs, n) => {
+            let cs = g->CountableConst_1;
+            assert forall|i: int| 0 <= i < cs@.len() implies ref_free(#[trigger] cs@[i]) && subtrees_ok(cs@[i], false) by {
+                assert(is_subst(bs@[i], x, rep, cs@[i]));
+                lemma_subst_ok(bs@[i], x, rep, cs@[i]);
+            }
+        }
+        SymbolicBDD::CountableVariable(op, l, r) => {
+            let l2 = g->CountableVariable_1; let r2 = g->CountableVariable_2;
+            assert forall|i: int| 0 <= i < l2@.len() implies ref_free(#[trigger] l2@[i]) && subtrees_ok(l2@[i], false) by {
+                assert(is_subst(l@[i], x, rep, l2@[i]));
+                lemma_subst_ok(l@[i], x, rep, l2@[i]);
+            }
+            assert forall|i: int| 0 <= i < r2@.len() implies ref_free(#[trigger] r2@[i]) && subtrees_ok(r2@[i], false) by {
+                assert(is_subst(r@[i], x, rep, r2@[i]));
+                lemma_subst_ok(r@[i], x, rep, r2@[i]);
+            }
+        }
+        _ => {}
+    }
+}
+
+pub proof fn lemma_fp_step_det(x: Sym, t: SymbolicBDD, rho: Rho, p: BDD, q1: BDD, q2: BDD)
+    requires fp_step(x, t, rho, p, q1), fp_step(x, t, rho, p, q2)
+    ensures q1 == q2
+{
+    assert(sem_eq(q1, q2));
+    lemma_canon(q1, q2, 0);
+}
+
+pub proof fn lemma_fp_trace_prefix(x: Sym, i: bool, t: SymbolicBDD, rho: Rho, tr1: Seq<BDD>, tr2: Seq<BDD>, k: int)
+    requires fp_trace(x, i, t, rho, tr1), fp_trace(x, i, t, rho, tr2), 0 <= k < tr1.len(), k < tr2.len()
+    ensures tr1[k] == tr2[k]
+    decreases k
+{
+    if k > 0 {
+        lemma_fp_trace_prefix(x, i, t, rho, tr1, tr2, k - 1);
+        assert(fp_step(x, t, rho, tr1[k - 1], tr1[k - 1 + 1]));
+        assert(fp_step(x, t, rho, tr2[k - 1], tr2[k - 1 + 1]));
+        lemma_fp_step_det(x, t, rho, tr1[k - 1], tr1[k], tr2[k]);
+    }
+}
+
+/// the iteration has at most one result: every step is determined by canonicity, and the first stable iterate ends every trace
+pub proof fn lemma_fp_result_unique(x: Sym, i: bool, t: SymbolicBDD, rho: Rho, y1: BDD, y2: BDD)
+    requires fp_result(x, i, t, rho, y1), fp_result(x, i, t, rho, y2)
+    ensures y1 == y2
+{
+    let tr1 = choose|tr: Seq<BDD>| #[trigger] tr_tag(tr) && fp_trace(x, i, t, rho, tr) && tr[tr.len() - 1] == y1 && fp_step(x, t, rho, y1, y1);
+    let tr2 = choose|tr: Seq<BDD>| #[trigger] tr_tag(tr) && fp_trace(x, i, t, rho, tr) && tr[tr.len() - 1] == y2 && fp_step(x, t, rho, y2, y2);
+    let n1 = tr1.len() as int; let n2 = tr2.len() as int;
+    if n1 < n2 {
+        lemma_fp_trace_prefix(x, i, t, rho, tr1, tr2, n1 - 1);
+        assert(fp_step(x, t, rho, tr2[n1 - 1], tr2[n1 - 1 + 1]) && tr2[n1 - 1 + 1] != tr2[n1 - 1]);
+        lemma_fp_step_det(x, t, rho, y1, y1, tr2[n1]);
+        assert(false);
+    } else if n2 < n1 {
+        lemma_fp_trace_prefix(x, i, t, rho, tr1, tr2, n2 - 1);
+        assert(fp_step(x, t, rho, tr1[n2 - 1], tr1[n2 - 1 + 1]) && tr1[n2 - 1 + 1] != tr1[n2 - 1]);
+        lemma_fp_step_det(x, t, rho, y2, y2, tr1[n2]);
+        assert(false);
+    } else {
+        lemma_fp_trace_prefix(x, i, t, rho, tr1, tr2, n1 - 1);
+    }
+}
+
+/// any result of the iteration is THE value of the fixed-point formula
+pub proof fn lemma_fp_sem_is_result(x: Sym, i: bool, t: SymbolicBDD, rho: Rho, y: BDD, a: Asg)
+    requires fp_result(x, i, t, rho, y)
+    ensures fp_sem(x, i, t, rho, a) == eval(y, a)
+{
+    if fp_sem(x, i, t, rho, a) {
+        let c = choose|c: BDD| fp_result(x, i, t, rho, c) && #[trigger] eval(c, a);
+        lemma_fp_result_unique(x, i, t, rho, y, c);
+    }
+}
+
+/// two (body, environment) pairs with the same step relation have the same fixed-point value
+pub proof fn lemma_fp_sem_equiv(x: Sym, i: bool, t1: SymbolicBDD, rho1: Rho, t2: SymbolicBDD, rho2: Rho, a: Asg)
+    requires forall|p: BDD, q: BDD| #[trigger] pq_tag(p, q) ==> fp_step(x, t1, rho1, p, q) == fp_step(x, t2, rho2, p, q)
+    ensures fp_sem(x, i, t1, rho1, a) == fp_sem(x, i, t2, rho2, a)
+{
+    assert forall|tr: Seq<BDD>| #[trigger] tr_tag(tr) implies fp_trace(x, i, t1, rho1, tr) == fp_trace(x, i, t2, rho2, tr) by {
+        if fp_trace(x, i, t1, rho1, tr) {
+            assert forall|k: int| 0 <= k < tr.len() - 1 implies fp_step(x, t2, rho2, #[trigger] tr[k], tr[k + 1]) && tr[k + 1] != tr[k] by {
+                assert(pq_tag(tr[k], tr[k + 1]));
+                assert(fp_step(x, t1, rho1, tr[k], tr[k + 1]));
+            }
+        }
+        if fp_trace(x, i, t2, rho2, tr) {
+            assert forall|k: int| 0 <= k < tr.len() - 1 implies fp_step(x, t1, rho1, #[trigger] tr[k], tr[k + 1]) && tr[k + 1] != tr[k] by {
+                assert(pq_tag(tr[k], tr[k + 1]));
+                assert(fp_step(x, t2, rho2, tr[k], tr[k + 1]));
+            }
+        }
+    }
+    assert forall|y: BDD| #[trigger] pq_tag(y, y) implies fp_result(x, i, t1, rho1, y) == fp_result(x, i, t2, rho2, y) by {
+        if fp_result(x, i, t1, rho1, y) {
+            let tr = choose|tr: Seq<BDD>| #[trigger] tr_tag(tr) && fp_trace(x, i, t1, rho1, tr) && tr[tr.len() - 1] == y && fp_step(x, t1, rho1, y, y);
+            assert(tr_tag(tr) && fp_trace(x, i, t2, rho2, tr) && tr[tr.len() - 1] == y && fp_step(x, t2, rho2, y, y));
+        }
+        if fp_result(x, i, t2, rho2, y) {
+            let tr = choose|tr: Seq<BDD>| #[trigger] tr_tag(tr) && fp_trace(x, i, t2, rho2, tr) && tr[tr.len() - 1] == y && fp_step(x, t2, rho2, y, y);
+            assert(tr_tag(tr) && fp_trace(x, i, t1, rho1, tr) && tr[tr.len() - 1] == y && fp_step(x, t1, rho1, y, y));
+        }
+    }
+    if fp_sem(x, i, t1, rho1, a) {
+        let y = choose|y: BDD| fp_result(x, i, t1, rho1, y) && #[trigger] eval(y, a);
+        assert(pq_tag(y, y));
+        assert(fp_result(x, i, t2, rho2, y) && eval(y, a));
+    }
+    if fp_sem(x, i, t2, rho2, a) {
+        let y = choose|y: BDD| fp_result(x, i, t2, rho2, y) && #[trigger] eval(y, a);
+        assert(pq_tag(y, y));
+        assert(fp_result(x, i, t1, rho1, y) && eval(y, a));
+    }
+}
+pub open spec fn pq_tag(p: BDD, q: BDD) -> bool { true }
+
+pub open spec fn ar_tag(a: Asg, rho: Rho) -> bool { true }
+
+/// g behaves under every (assignment, environment) like f under the environment extended with x := y
+pub open spec fn subst_sem(f: SymbolicBDD, x: Sym, y: BDD, g: SymbolicBDD) -> bool {
+    forall|a: Asg, rho: Rho| #[trigger] ar_tag(a, rho) ==> sem(g, a, rho) == sem(f, a, rho.insert(x, y))
+}
+
+pub proof fn lemma_semq_cong(q: QuantifierType, vs: Seq<Sym>, b: SymbolicBDD, b2: SymbolicBDD, x: Sym, y: BDD, a: Asg, rho: Rho)
+    requires subst_sem(b, x, y, b2)
+    ensures semq(q, vs, b2, a, rho) == semq(q, vs, b, a, rho.insert(x, y))
+    decreases vs.len()
+{
+    if vs.len() == 0 {
+        assert(ar_tag(a, rho));
+    } else {
+        lemma_semq_cong(q, vs.subrange(1, vs.len() as int), b, b2, x, y, upd(a, vs[0], true), rho);
+        lemma_semq_cong(q, vs.subrange(1, vs.len() as int), b, b2, x, y, upd(a, vs[0], false), rho);
+    }
+}
+
+pub proof fn lemma_scount_cong(bs: Seq<SymbolicBDD>, cs: Seq<SymbolicBDD>, i: nat, x: Sym, y: BDD, a: Asg, rho: Rho)
+    requires bs.len() == cs.len(), forall|k: int| 0 <= k < bs.len() ==> subst_sem(#[trigger] bs[k], x, y, cs[k])
+    ensures scount(cs, i, a, rho) == scount(bs, i, a, rho.insert(x, y))
+    decreases bs.len() - i
+{
+    if i < bs.len() {
+        lemma_scount_cong(bs, cs, i + 1, x, y, a, rho);
+        assert(subst_sem(bs[i as int], x, y, cs[i as int]));
+        assert(ar_tag(a, rho));
+    }
+}
+
+/// substitution lemma: evaluating T with X textually replaced by the diagram y  ==  evaluating T in an environment X := y
+pub proof fn lemma_subst_sem(f: SymbolicBDD, x: Sym, rep: SymbolicBDD, y: BDD, g: SymbolicBDD)
+    requires is_subst(f, x, rep, g), rep is Subtree, *rep->Subtree_0 == y, ref_free(f)
+    ensures subst_sem(f, x, y, g)
+    decreases f
+{
+    match f {
+        SymbolicBDD::Var(v) => {}
+        SymbolicBDD::False | SymbolicBDD::True | SymbolicBDD::Subtree(_) | SymbolicBDD::Reference(_) => {}
+        SymbolicBDD::Not(b) => {
+            let b2 = *g->Not_0;
+            lemma_subst_sem(*b, x, rep, y, b2);
+            assert forall|a: Asg, rho: Rho| #[trigger] ar_tag(a, rho) implies sem(g, a, rho) == sem(f, a, rho.insert(x, y)) by {
+                assert(ar_tag(a, rho));
+                assert(sem(b2, a, rho) == sem(*b, a, rho.insert(x, y)));
+            }
+        }
+        SymbolicBDD::Quantifier(q, vs, b) => {
+            lemma_sym_in(vs@, x);
+            if sym_in(vs@, x) {
+                assert forall|a: Asg, rho: Rho| #[trigger] ar_tag(a, rho) implies sem(g, a, rho) == sem(f, a, rho.insert(x, y)) by {
+                    assert(rho.remove_keys(vs@.to_set()) =~= rho.insert(x, y).remove_keys(vs@.to_set()));
+                }
+            } else {
+                let b2 = *g->Quantifier_2;
+                lemma_subst_sem(*b, x, rep, y, b2);
+                assert forall|a: Asg, rho: Rho| #[trigger] ar_tag(a, rho) implies sem(g, a, rho) == sem(f, a, rho.insert(x, y)) by {
+                    let r0 = rho.remove_keys(vs@.to_set());
+                    assert(r0.insert(x, y) =~= rho.insert(x, y).remove_keys(vs@.to_set()));
+                    lemma_semq_cong(q, vs@, *b, b2, x, y, a, r0);
+                }
+            }
+        }
+        SymbolicBDD::FixedPoint(v, i, t) => {
+            if v == x {
+                assert forall|a: Asg, rho: Rho| #[trigger] ar_tag(a, rho) implies sem(g, a, rho) == sem(f, a, rho.insert(x, y)) by {
+                    assert forall|p: BDD, q: BDD| #[trigger] pq_tag(p, q) implies fp_step(v, *t, rho, p, q) == fp_step(v, *t, rho.insert(x, y), p, q) by {
+                        assert(rho.insert(v, p) =~= rho.insert(x, y).insert(v, p));
+                    }
+                    lemma_fp_sem_equiv(v, i, *t, rho, *t, rho.insert(x, y), a);
+                }
+            } else {
+                let t2 = *g->FixedPoint_2;
+                lemma_subst_sem(*t, x, rep, y, t2);
+                assert forall|a: Asg, rho: Rho| #[trigger] ar_tag(a, rho) implies sem(g, a, rho) == sem(f, a, rho.insert(x, y)) by {
+                    assert forall|p: BDD, q: BDD| #[trigger] pq_tag(p, q) implies fp_step(v, t2, rho, p, q) == fp_step(v, *t, rho.insert(x, y), p, q) by {
+                        assert(rho.insert(v, p).insert(x, y) =~= rho.insert(x, y).insert(v, p));
+                        if fp_step(v, t2, rho, p, q) {
+                            assert forall|a2: Asg| #[trigger] eval(q, a2) == sem(*t, a2, rho.insert(x, y).insert(v, p)) by {
+                                assert(ar_tag(a2, rho.insert(v, p)));
+                            }
+                            assert(fp_step(v, *t, rho.insert(x, y), p, q));
+                        }
+                        if fp_step(v, *t, rho.insert(x, y), p, q) {
+                            assert forall|a2: Asg| #[trigger] eval(q, a2) == sem(t2, a2, rho.insert(v, p)) by {
+                                assert(ar_tag(a2, rho.insert(v, p)));
+                            }
+                            assert(fp_step(v, t2, rho, p, q));
+                        }
+                    }
+                    lemma_fp_sem_equiv(v, i, t2, rho, *t, rho.insert(x, y), a);
+                }
+            }
+        }
+        SymbolicBDD::Ite(c, t, e) => {
+            let c2 = *g->Ite_0; let t2 = *g->Ite_1; let e2 = *g->Ite_2;
+            lemma_subst_sem(*c, x, rep, y, c2); lemma_subst_sem(*t, x, rep, y, t2); lemma_subst_sem(*e, x, rep, y, e2);
+            assert forall|a: Asg, rho: Rho| #[trigger] ar_tag(a, rho) implies sem(g, a, rho) == sem(f, a, rho.insert(x, y)) by {
+                assert(ar_tag(a, rho));
+                assert(sem(c2, a, rho) == sem(*c, a, rho.insert(x, y)));
+                assert(sem(t2, a, rho) == sem(*t, a, rho.insert(x, y)));
+                assert(sem(e2, a, rho) == sem(*e, a, rho.insert(x, y)));
+            }
+        }
+        SymbolicBDD::BinaryOp(op, l, r) => {
+            let l2 = *g->BinaryOp_1; let r2 = *g->BinaryOp_2;
+            lemma_subst_sem(*l, x, rep, y, l2); lemma_subst_sem(*r, x, rep, y, r2);
+            assert forall|a: Asg, rho: Rho| #[trigger] ar_tag(a, rho) implies sem(g, a, rho) == sem(f, a, rho.insert(x, y)) by {
+                assert(ar_tag(a, rho));
+                assert(sem(l2, a, rho) == sem(*l, a, rho.insert(x, y)));
+                assert(sem(r2, a, rho) == sem(*r, a, rho.insert(x, y)));
+            }
+        }
+        SymbolicBDD::CountableConst(op, bs, n) => {
+            let cs = g->CountableConst_1;
+            assert forall|k: int| 0 <= k < bs@.len() implies subst_sem(#[trigger] bs@[k], x, y, cs@[k]) by {
+                lemma_subst_sem(bs@[k], x, rep, y, cs@[k]);
+            }
+            assert forall|a: Asg, rho: Rho| #[trigger] ar_tag(a, rho) implies sem(g, a, rho) == sem(f, a, rho.insert(x, y)) by {
+                lemma_scount_cong(bs@, cs@, 0, x, y, a, rho);
+            }
+        }
+        SymbolicBDD::CountableVariable(op, l, r) => {
+            let l2 = g->CountableVariable_1; let r2 = g->CountableVariable_2;
+            assert forall|k: int| 0 <= k < l@.len() implies subst_sem(#[trigger] l@[k], x, y, l2@[k]) by {
+                lemma_subst_sem(l@[k], x, rep, y, l2@[k]);
+            }
+            assert forall|k: int| 0 <= k < r@.len() implies subst_sem(#[trigger] r@[k], x, y, r2@[k]) by {
+                lemma_subst_sem(r@[k], x, rep, y, r2@[k]);
+            }
+            assert forall|a: Asg, rho: Rho| #[trigger] ar_tag(a, rho) implies sem(g, a, rho) == sem(f, a, rho.insert(x, y)) by {
+                lemma_scount_cong(l@, l2@, 0, x, y, a, rho);
+                lemma_scount_cong(r@, r2@, 0, x, y, a, rho);
+            }
+        }
     }
 }
